@@ -28,15 +28,26 @@ DCanonical(w) == N(w) < 2^(VB - 1) \/ N(w) >= TwoWB - 2^(VB - 1)
 CanonSet == { w \in AllW : DCanonical(w) }
 PhysSet  == { w \in AllW : N(w) < 2^PB }
 
-(* constant-level tables (TLC evaluates them once) *)
-DPosF == [ w \in CanonSet |-> Cardinality({ c \in CanonSet : N(c) < N(w) }) ]
-DPos(w) == DPosF[w]
-NthF == [ n \in 0 .. Cardinality(CanonSet) - 1 |-> CHOOSE c \in CanonSet : DPosF[c] = n ]
-NthCanon(n) == NthF[n]
+(* constant-level tables (TLC evaluates and materialises them once).  Positions are defined
+   by counting, the n-th element by filtering the naturals in order; both are written on
+   naturals so that their cost is quadratic at worst (12-bit configurations). *)
+NatSeq == [ i \in 1 .. TwoWB |-> i - 1 ]
+DCanonN(n) == n < 2^(VB - 1) \/ n >= TwoWB - 2^(VB - 1)
+IsPageN(n, s) == DCanonN(n) /\ n % 2^SizeBits(s) = 0
+CanonSeqN == SelectSeq(NatSeq, LAMBDA n : DCanonN(n))
+DPosT == [ n \in 0 .. TwoWB - 1 |-> Cardinality({ c \in 0 .. n - 1 : DCanonN(c) }) ] @@ << >>
+DPos(w) == DPosT[N(w)]
+NthCanon(n) == W(CanonSeqN[n + 1])
 PagesF == [ s \in SizeClass |-> { c \in CanonSet : N(c) % 2^SizeBits(s) = 0 } ]
-PPosF == [ s \in SizeClass |-> [ p \in PagesF[s] |-> Cardinality({ c \in PagesF[s] : N(c) < N(p) }) ] ]
-PNthF == [ s \in SizeClass |-> [ n \in 0 .. Cardinality(PagesF[s]) - 1 |->
-                                   CHOOSE c \in PagesF[s] : PPosF[s][c] = n ] ]
+PagesSeq0 == SelectSeq(NatSeq, LAMBDA n : IsPageN(n, 0))
+PagesSeq1 == SelectSeq(NatSeq, LAMBDA n : IsPageN(n, 1))
+PagesSeq2 == SelectSeq(NatSeq, LAMBDA n : IsPageN(n, 2))
+PPosT0 == [ n \in 0 .. TwoWB - 1 |-> Cardinality({ c \in 0 .. n - 1 : IsPageN(c, 0) }) ] @@ << >>
+PPosT1 == [ n \in 0 .. TwoWB - 1 |-> Cardinality({ c \in 0 .. n - 1 : IsPageN(c, 1) }) ] @@ << >>
+PPosT2 == [ n \in 0 .. TwoWB - 1 |-> Cardinality({ c \in 0 .. n - 1 : IsPageN(c, 2) }) ] @@ << >>
+PPos(s, p) == IF s = 0 THEN PPosT0[N(p)] ELSE IF s = 1 THEN PPosT1[N(p)] ELSE PPosT2[N(p)]
+PNth(s, n) == W(IF s = 0 THEN PagesSeq0[n + 1] ELSE IF s = 1 THEN PagesSeq1[n + 1] ELSE PagesSeq2[n + 1])
+PCount(s) == IF s = 0 THEN Len(PagesSeq0) ELSE IF s = 1 THEN Len(PagesSeq1) ELSE Len(PagesSeq2)
 
 Pow2Nats == { 2^k : k \in 0 .. WB - 1 }
 Multiple(x, m) == x % m = 0
@@ -177,14 +188,14 @@ L_Step ==
 L_PageStep ==
     \A s \in SizeClass :
       LET sz == 2^SizeBits(s)
-          pages == PagesF[s]
-          ppos(p) == PPosF[s][p]
-          nth(n) == PNthF[s][n]
-      IN /\ a \in pages =>
-              /\ PageStepFwd(a, b, s) = (IF ppos(a) + N(b) < Cardinality(pages)
+          ppos(p) == PPos(s, p)
+          nth(n) == PNth(s, n)
+          isPage(w) == IsPageN(N(w), s)
+      IN /\ isPage(a) =>
+              /\ PageStepFwd(a, b, s) = (IF ppos(a) + N(b) < PCount(s)
                                          THEN Ok(nth(ppos(a) + N(b))) ELSE None)
               /\ PageStepBack(a, b, s) = (IF ppos(a) >= N(b) THEN Ok(nth(ppos(a) - N(b))) ELSE None)
-         /\ (a \in pages /\ b \in pages) =>
+         /\ (isPage(a) /\ isPage(b)) =>
               PageStepsBetween(a, b, s) = (IF ppos(b) >= ppos(a) THEN Ok(W(ppos(b) - ppos(a))) ELSE None)
 L_IdxStep ==
     (N(a) < 2^IB) =>
@@ -217,7 +228,15 @@ LemmaInv == InvC03 /\ InvC04 /\ InvC05 /\ InvC06 /\ InvC07 /\ InvC20
 (* every a is an initial state, every (a, b) a successor: 2^WB initial states whose
    successors are generated and checked in parallel by the workers *)
 LemmaInit == a \in AllW /\ b = ZeroW /\ va = ZeroW /\ pa = ZeroW
-LemmaNext == b = ZeroW /\ b' \in AllW /\ UNCHANGED <<a, va, pa>>
+(* the second operand: all words (8-bit configurations); at 12 bit either none (lemmas over `a`
+   alone) or the boundary lattice {2^k + d} u {multiples of 37} u {all-ones - d} *)
+LatN == { n \in 0 .. TwoWB - 1 : \/ \E k \in 0 .. WB : \E d \in 0 .. 2 : n = 2^k + d \/ n + d = 2^k
+                                 \/ n % 37 = 0 \/ n < 6 }
+BAll == AllW
+BLat == { W(n) : n \in LatN }
+BNone == {}
+BDom == BAll
+LemmaNext == b = ZeroW /\ b' \in BDom /\ UNCHANGED <<a, va, pa>>
 LemmaSpec == LemmaInit /\ [][LemmaNext]_<<a, b, va, pa>>
 
 -----------------------------------------------------------------------------
